@@ -467,6 +467,12 @@ func (ipfs *Connector) pinUpdate(ctx context.Context, from, to cid.Cid) error {
 	ctx, span := trace.StartSpan(ctx, "ipfsconn/ipfshttp/pinUpdate")
 	defer span.End()
 
+	// pin/update reports no progress, so the pin timeout bounds the
+	// whole request: without it a daemon that never answers would block
+	// Pin() for as long as the caller's context lives.
+	ctx, cancel := context.WithTimeout(ctx, ipfs.config.PinTimeout)
+	defer cancel()
+
 	path := fmt.Sprintf("pin/update?arg=%s&arg=%s&unpin=false", from, to)
 	_, err := ipfs.postCtx(ctx, path, "", nil)
 	if err != nil {
